@@ -76,6 +76,8 @@ func budget(r *engine.Run) time.Duration {
 	return 18 * time.Minute
 }
 
+const c05oracle = "oracle C05: every block made by CreateAndExecuteBlock contains only hard+soft-eligible pending transactions, respects the size limit (second world: 1 KiB transaction/block limits via USER_MAX_TXN_SIZE so that five pending transactions exceed the block), is ordered by fee/kB then hash, resolves conflicts in favour of the first in that order, equals the reference pipeline, and is accepted by a fresh real follower node that replayed the same chain"
+
 func init() {
 	roots := []string{"genesis", "distributed"}
 	common := "BFS over real ledger operations (inject foreign/user × transaction templates, ExecuteSignedBlock × block alphabet on a follower, CreateAndExecuteBlock on a publisher, refresh, remove-invalid, reopen, rebuild-indexes) from two roots (genesis; a chain with distributed outputs); a state = canonical digest of all bolt buckets; the reference model (model/ledger, big.Int) predicts every step; "
@@ -88,7 +90,11 @@ func init() {
 	reg("C02", "both", false, "oracle C02: the real unspent set (id, owner, coins, hours, time, seq, source) equals created−spent of the model in every state; no output is removed twice; blocks with double spends (inside a block, of spent outputs, of outputs created in the same block, same transaction twice) are rejected")
 	reg("C03", "both", false, "oracle C03: for every transaction of an accepted block Σ output hours ≤ Σ exactly accrued input hours at the previous head time (legacy per-input exception applied only when the exact sum needs ≥ 2^64); injection never admits output hours summing to ≥ 2^64; time deltas up to 1e7 s per block")
 	reg("C04", "follower", false, "oracle C04: ExecuteSignedBlock accepts exactly the model-valid next blocks over the whole mutated-block alphabet; the stored chain equals the submitted headers bit for bit and every stored signature verifies over the stored header; a rejected block leaves every bucket unchanged")
-	reg("C05", "publisher", false, "oracle C05: every block made by CreateAndExecuteBlock contains only hard+soft-eligible pending transactions, respects the size limit, is ordered by fee/kB then hash, resolves conflicts in favour of the first in that order, equals the reference pipeline, and is accepted by a fresh real follower node that replayed the same chain")
+	register("C05", "model_checking", func(r *engine.Run) {
+		ws := append(worldsFor("publisher"), worldsFor("publisher-small")...)
+		runExplore(r, "C05", exploreCfg{Worlds: ws, MaxDepth: r.Pick(6, 8), MaxStates: r.Pick(2500, 40000), Budget: budget(r), Roots: roots}, common+c05oracle)
+	})
+	_ = func() { reg("C05", "publisher", false, "oracle C05: every block made by CreateAndExecuteBlock contains only hard+soft-eligible pending transactions, respects the size limit, is ordered by fee/kB then hash, resolves conflicts in favour of the first in that order, equals the reference pipeline, and is accepted by a fresh real follower node that replayed the same chain") }
 	reg("C06", "both", false, "oracle C06: after every step the real pool (hash set and validity flags) equals the model pool; injection verdict class (ok / soft / hard / user) equals the rules'; Refresh and RemoveInvalid return exactly the hashes the rules predict")
 	reg("C07", "both", true, "oracle C07: in every state all query views (per-address unspent index for all 64 address subsets, address count, stored xor checksum, history of every output incl. spender, per-address output history, transaction lists × filters × order, confirmed and predicted balances, block range queries) equal values recomputed from the model; rebuilding indexes/history from the stored blocks reproduces every bucket")
 }
